@@ -15,7 +15,7 @@ def describe(tier):
                  "where a bucket is large: same dense with different common, same common with dense differing in one cell, reflexive pairs with opposite insertion order) "
                  "satisfy a == b iff the triples coincide (and ALL pairs of the indexes of shape (3,), (4,), (3,2) over a small alphabet and every common); comparison with non-indexes is False. Plus (a) for from_array with the common omitted over every small array x "
                  "mapping (none, permutation, two many-to-one, all-to-one) x counts (None, exact), and for shift_common()/filtered/append/collapsed on every array of the larger shapes "
-                 "(3,2), (4,2), (2,3), (5,), (4,) that the quick state graph does not contain." % d["rule"][:160])
+                 "(3,2), (4,2), (2,3), (5,), (4,) that the quick state graph does not contain; and for from_array on arrays of 1 000 .. 131 077 (thorough 2^20) cells whose winner is decided by the last 40%% of the cells." % d["rule"][:160])
     return d
 
 
@@ -134,13 +134,56 @@ def equality_family(res, tier):
     return viol, {"equality_pairs_on_three_and_four_row_indexes": n}
 
 
+def scale_family(res, tier):
+    """C15a at scale: arrays of 65 536 x k + r cells whose most frequent value is decided by the LAST cells (blockwise or sampled counting must not
+    miss the tail), 1-D and 2-D, with and without a mapping / exact counts."""
+    import numpy
+
+    from catii.iindexes import iindex
+
+    viol = []
+    n = 0
+    sizes = [1000, 65535, 65536, 65537, 70000, 110000, 131072 + 5]
+    if tier == "thorough":
+        sizes += [262144 + 77, 1 << 20]
+    for size in sizes:
+        head = min(size, (size * 3) // 5)
+        for shape in ((size,), (size // 100, 100) if size % 100 == 0 else None):
+            if shape is None:
+                continue
+            a = numpy.empty(size, dtype=numpy.int64)
+            # the head: mostly 1; the tail: only 0 -> overall 0 wins narrowly when the tail is counted
+            a[:head] = numpy.where(numpy.arange(head) % 5 < 3, 1, 2)      # 60% ones, 40% twos in the head
+            a[head:] = 0                                                   # 40% of all cells
+            # counts: ones = 0.36, twos = 0.24, zeros = 0.40 of the size -> 0 is the strict winner
+            for dt in (numpy.int64, numpy.uint8):
+                arr = a.astype(dt).reshape(shape)
+                for mk, mapping in (("none", None), ("identity+", {0: 0, 1: 1, 2: 2, 9: 9})):
+                    for uc in (False, True):
+                        counts = None
+                        if uc:
+                            v, c = numpy.unique(arr, return_counts=True)
+                            counts = dict(zip(v.tolist(), c.tolist()))
+                        n += 1
+                        try:
+                            idx = iindex.from_array(arr, counts=counts, mapping=dict(mapping) if mapping else None)
+                        except Exception:  # noqa
+                            continue
+                        if not hist.most_frequent_ok(arr.astype(numpy.int64), idx.common):
+                            viol.append({"property": "C15", "site": "from_array:common-not-most-frequent", "op": {"op": "from_array-scale", "size": size, "shape": list(shape), "dtype": numpy.dtype(dt).name, "mapping": mk, "counts": uc},
+                                         "detail": "from_array chose common %r for an array of %d cells in which 0 is the strict winner" % (idx.common, size), "state": hist.key_from_dense(numpy.zeros((0,), dtype=numpy.int64), 0), "depth": 0})
+    return viol, {"from_array_scale_cases": n}
+
+
 def extras(res, tier):
     v1, c1 = from_array_family(res, tier)
     v2, c2 = normalisation_family(res, tier)
     v3, c3 = equality_family(res, tier)
+    v4, c4 = scale_family(res, tier)
     c1.update(c2)
     c1.update(c3)
-    return v1 + v2 + v3, c1
+    c1.update(c4)
+    return v1 + v2 + v3 + v4, c1
 
 
 def main(tier, all_violations=False, t0=None):
